@@ -1,28 +1,29 @@
 import PigeonVerif.Model.Protocol
 import PigeonVerif.Model.MidProtocol
+import PigeonVerif.Spec.SpecProtocol
 open PV PV.Protocol
 
-partial def loop (h : IO.FS.Stream) (out : IO.FS.Stream) (tab : Array CaseRange) : IO Unit := do
+partial def loop (spec : Bool) (h : IO.FS.Stream) (out : IO.FS.Stream) (tab : Array CaseRange) : IO Unit := do
   let line ← h.getLine
   if line.isEmpty then return ()
   let line := line.trimAsciiEnd.toString
-  if line.isEmpty then loop h out tab
+  if line.isEmpty then loop spec h out tab
   else if line.startsWith "unicode " then
     match parseLine caseRanges line with
-    | .ok t => loop h out t.toArray
-    | .error e => out.putStrLn s!"res 0 error header: {e}"; loop h out tab
+    | .ok t => loop spec h out t.toArray
+    | .error e => out.putStrLn s!"res 0 error header: {e}"; loop spec h out tab
   else if line.startsWith "mid " then
     match parseLine MidProtocol.midCase line with
     | .ok c => out.putStrLn (MidProtocol.runMid c)
     | .error e => out.putStrLn s!"midres 0 error {e}"
-    loop h out tab
+    loop spec h out tab
   else
     match parseLine case_ line with
-    | .ok c => out.putStrLn (runCase c (toLower tab))
+    | .ok c => out.putStrLn (if spec then SpecProtocol.runSpec c (toLower tab) else runCase c (toLower tab))
     | .error e => out.putStrLn s!"res 0 error {e}"
-    loop h out tab
+    loop spec h out tab
 
-def main : IO Unit := do
+def main (args : List String) : IO Unit := do
   let stdin ← IO.getStdin
   let stdout ← IO.getStdout
-  loop stdin stdout #[]
+  loop (args.contains "--spec") stdin stdout #[]
